@@ -567,8 +567,8 @@ def run_tagged(prop, tier, module, consts, fam, dbs_fn, cfgs_fn, rule, extra_ite
         tag = "/".join(str(x) for x in p["tag"])
         for di, db in enumerate(dbs):
             if tier == "thorough":
-                # every configuration for a third of the (query, database) pairs, three rotating ones for the rest
-                chosen = cfgs if (qi + di) % 3 == 0 else [cfgs[(qi + di + j) % len(cfgs)] for j in range(3)]
+                # every configuration for a sixth of the (query, database) pairs, two rotating ones for the rest
+                chosen = cfgs if (qi + di) % 6 == 0 else [cfgs[(qi + di + j) % len(cfgs)] for j in range(2)]
             else:
                 chosen = [cfgs[(qi + di) % len(cfgs)]]
             for c in chosen:
